@@ -97,3 +97,49 @@ def same_polygon_numeric(a, b) -> bool:
 
 def same_polygon_symbolic(a, b) -> bool:
     return same_cyclic(a, b, lambda p, q: p[0].eq(q[0]) and p[1].eq(q[1]))
+
+
+def in_convex(p, poly) -> bool:
+    """Point in the closed convex polygon (vertices in either orientation; degenerate polygons are segments / points)."""
+    pts = dedupe(poly)
+    if not pts:
+        return False
+    if len(pts) == 1:
+        return p == pts[0]
+    sign = 0
+    n = len(pts)
+    for i in range(n):
+        (x1, y1), (x2, y2) = pts[i], pts[(i + 1) % n]
+        cross = (x2 - x1) * (p[1] - y1) - (y2 - y1) * (p[0] - x1)
+        if cross != 0:
+            s = 1 if cross > 0 else -1
+            if sign and s != sign:
+                return False
+            sign = s
+    if sign == 0:  # all collinear: on the segment?
+        xs, ys = [q[0] for q in pts], [q[1] for q in pts]
+        return min(xs) <= p[0] <= max(xs) and min(ys) <= p[1] <= max(ys)
+    return True
+
+
+def same_region(got: list, want: list) -> tuple[bool, object]:
+    """The unions of two lists of convex polygons (numeric vertices) contain the same points, decided on a probe set: every vertex,
+    every midpoint of two vertices of one polygon and every centroid, of either list.  (A neutron is transmitted iff its point lies in
+    one of the polygons: how the region is cut into polygons is not part of the statement.)"""
+    probes = []
+    for poly in list(got) + list(want):
+        pts = dedupe(poly)
+        if not pts or area2(pts) == 0:
+            continue  # a zero-area leftover transmits nothing
+        probes.extend(pts)
+        for i in range(len(pts)):
+            for j in range(i + 1, len(pts)):
+                probes.append(((pts[i][0] + pts[j][0]) / 2, (pts[i][1] + pts[j][1]) / 2))
+        probes.append((sum(q[0] for q in pts) / len(pts), sum(q[1] for q in pts) / len(pts)))
+    solid = lambda polys: [q for q in polys if dedupe(q) and area2(dedupe(q)) != 0]  # noqa: E731
+    g, w = solid(got), solid(want)
+    for p in probes:
+        a, b = any(in_convex(p, q) for q in g), any(in_convex(p, q) for q in w)
+        if a != b:
+            return False, {'point': (float(p[0]), float(p[1])), 'in_reported_polygons': a, 'in_reference_region': b}
+    return True, {}
